@@ -41,6 +41,13 @@ func FamilyName(thorough bool) []*Conv {
 			Spec:    &Spec{},
 		})
 	}
+	// a type whose generated variable name is `err` (type rr of package e, output in its package) next to a fallible function
+	out = append(out, &Conv{
+		ID: "name/variable_named_err/variable", Family: "name", Format: "variable", Solo: true, PkgName: "e",
+		Params: "source PFXIn", Results: "(PFXOut, error)",
+		Decls:     "type rr struct{ V int }\ntype PFXIn struct{ A int }\ntype PFXOut struct{ A rr }\nfunc PFXTorr(i int) (rr, error) { return rr{}, nil }\n",
+		ConvLines: []string{"extend PFXTorr"}, Spec: &Spec{},
+	})
 	// type names that collide with generated helper names / locals
 	for _, f := range []string{"struct", "function", "variable"} {
 		out = append(out, &Conv{
